@@ -92,6 +92,8 @@ def plan(prop):
         for kinds, dims, wr in tours:
             obs.append((prag, lambda ctx, kinds=kinds, dims=dims, wr=wr: po.ob_writer_tour(ctx, kinds, dims, wr)))
         obs.append((prag, lambda ctx: po.ob_statistic_sum(ctx)))
+        for how in ('location', 'disjoint', 'any'):
+            obs.append((prag, lambda ctx, how=how: po.ob_job_tag(ctx, how)))
         obs.append((core, lambda ctx: co.ob_total_cost_fold(ctx, 16, rates)))
     if prop == 'C20':
         obs.append((core, lambda ctx: co.ob_simple_objectives(ctx)))
